@@ -20,7 +20,11 @@ fn post<A: Abc, C: PositiveLength>(s: &StripedSequence<A, C>, seq: &[usize], rng
 
 fn post_raw<A: Abc, C: PositiveLength>(s: &StripedSequence<A, C>, seq: &[usize], rng: &mut impl Rng, with_counts: bool) -> Value {
     let m = s.matrix();
-    let rows: Vec<Vec<usize>> = (0..m.rows()).map(|i| m[i].iter().map(|x| x.as_index()).collect()).collect();
+    let by_index: Vec<Vec<usize>> = (0..m.rows()).map(|i| m[i].iter().map(|x| x.as_index()).collect()).collect();
+    // the rows as the matrix's own iterator yields them: same number, same contents (a matrix that keeps rows of an
+    // earlier, longer content behind its row count shows them here)
+    let by_iter: Vec<Vec<usize>> = m.iter().map(|r| r.iter().map(|x| x.as_index()).collect()).collect();
+    let rows = if by_iter != by_index { by_iter } else { by_index };
     let mut index = Vec::new();
     let l = seq.len();
     if l > 0 {
@@ -100,11 +104,12 @@ fn history<A: Abc, C: PositiveLength, P: Stripe<A, C>>(
                 _ => rng.gen_range(0..12),
             };
             let use_configure = rng.gen_bool(0.3);
+            let zero_width = m == 0 && rng.gen_bool(0.5);
             let r = guarded(|| {
                 let s = buf.as_mut().unwrap();
                 if use_configure {
                     // a scoring matrix of width m+1 (configure adds m look-ahead rows)
-                    let pssm = ScoringMatrix::<A>::new(Default::default(), DenseMatrix::new(m + 1));
+                    let pssm = ScoringMatrix::<A>::new(Default::default(), DenseMatrix::new(if zero_width { 0 } else { m + 1 }));
                     s.configure(&pssm);
                 } else {
                     s.configure_wrap(m);
